@@ -545,4 +545,119 @@ func TestRoundTripKeys(t *testing.T) {
 	})
 }
 
+// ---- large systems: sizes around the powers of two where container limits live
+
+// LargeCase is a system whose serialized body holds very long collections.
+type LargeCase struct {
+	Shape   string `json:"shape"`   // inputs | table
+	N       int    `json:"n"`       // number of secret inputs / table entries
+	Builder string `json:"builder"`
+}
+
+type largeCircuit struct {
+	In  []frontend.Variable
+	Out frontend.Variable `gnark:",public"`
+	c   *LargeCase
+}
+
+func (c *largeCircuit) Define(api frontend.API) error {
+	switch c.c.Shape {
+	case "inputs":
+		acc := frontend.Variable(0)
+		for i := 0; i < len(c.In); i += 64 {
+			hi := i + 64
+			if hi > len(c.In) {
+				hi = len(c.In)
+			}
+			acc = api.Add(acc, c.In[i], c.In[i+1:hi]...)
+		}
+		api.AssertIsEqual(c.Out, acc)
+	case "table":
+		t := logderivlookup.New(api)
+		for i := 0; i < c.c.N; i++ {
+			t.Insert(i * 3)
+		}
+		r := t.Lookup(c.In[0], c.In[1], c.In[2])
+		api.AssertIsEqual(c.Out, api.Add(r[0], r[1], r[2]))
+	}
+	return nil
+}
+
+func runLarge(c LargeCase) ev.Outcome {
+	f := prog.FieldByName("bn254")
+	nIn := c.N
+	if c.Shape == "table" {
+		nIn = 3
+	}
+	circ := &largeCircuit{In: make([]frontend.Variable, nIn), c: &c}
+	sys, err := prog.Compile(f, c.Builder, circ)
+	if err != nil {
+		return ev.Outcome{Violation: "compile of a large but ordinary circuit failed: " + firstLine(err.Error())}
+	}
+	var dec prog.System
+	if c.Builder == prog.R1CS {
+		dec = groth16.NewCS(f.Curve)
+	} else {
+		dec = plonk.NewCS(f.Curve)
+	}
+	if v := roundTrip(fmt.Sprintf("large constraint system (%s, %s, n=%d)", c.Builder, c.Shape, c.N), sys.WriteTo, dec.ReadFrom, dec.WriteTo); v != "" {
+		return ev.Outcome{Violation: v}
+	}
+	assign := &largeCircuit{In: make([]frontend.Variable, nIn), c: &c}
+	sum := 0
+	for i := range assign.In {
+		v := i % 7
+		if c.Shape == "table" {
+			v = (i*977 + 5) % c.N
+			sum += v * 3
+		} else {
+			sum += v
+		}
+		assign.In[i] = v
+	}
+	assign.Out = sum
+	w, err := frontend.NewWitness(assign, f.Q)
+	if err != nil {
+		return ev.Outcome{Violation: "witness: " + err.Error()}
+	}
+	if _, err := prog.Solve(sys, w); err != nil {
+		return ev.Outcome{Violation: "original large system does not solve: " + firstLine(err.Error())}
+	}
+	if _, err := prog.Solve(dec, w); err != nil {
+		return ev.Outcome{Violation: "decoded large system does not solve what the original solves: " + firstLine(err.Error())}
+	}
+	return ev.Outcome{NonTrivial: true, Classes: []string{"large:" + c.Shape, "large:" + c.Builder}}
+}
+
+func TestRoundTripLarge(t *testing.T) {
+	rec := ev.Get(ID)
+	rec.SetRule("large systems: 2^17+8 .. 2^17+5000 secret inputs, lookup tables of 44k-70k entries (collections of the serialized body beyond 2^16 / 2^17 elements), bn254, both builders: same round-trip and solve oracles")
+	ev.RegisterReplay("large", func(raw json.RawMessage) string {
+		var c LargeCase
+		if json.Unmarshal(raw, &c) != nil {
+			return ""
+		}
+		return runLarge(c).Violation
+	})
+	seed := int(ev.Seed()) + ev.Shard()
+	cases := []LargeCase{
+		{Shape: "inputs", N: 1<<17 + 8 + (seed*131)%5000, Builder: []string{prog.R1CS, prog.SCS}[seed%2]},
+		{Shape: "table", N: 44000 + (seed*977)%26000, Builder: []string{prog.SCS, prog.R1CS}[seed%2]},
+	}
+	if ev.Tier() == "thorough" {
+		cases = append(cases,
+			LargeCase{Shape: "inputs", N: 1<<17 + 8 + (seed*131)%5000, Builder: []string{prog.SCS, prog.R1CS}[seed%2]},
+			LargeCase{Shape: "table", N: 44000 + (seed*977)%26000, Builder: []string{prog.R1CS, prog.SCS}[seed%2]},
+			LargeCase{Shape: "inputs", N: 1<<16 + 3, Builder: prog.R1CS})
+	}
+	for _, c := range cases {
+		o := runLarge(c)
+		if o.Violation != "" {
+			p := rec.Violate("large", c, o.Violation)
+			t.Fatalf("VIOLATION %s replay=%s: %s", ID, p, o.Violation)
+		}
+		rec.Count("large", c, true, o.Classes...)
+	}
+}
+
 func TestReplay(t *testing.T) { ev.Replay(t) }
